@@ -50,6 +50,13 @@ def _mk_wallet(case, tag):
         hk = HDKey.from_seed(seed, network=net, witness_type=wt)
         w = Wallet.create('w', keys=hk.wif_key() if False else hk, scheme='single', network=net, witness_type=wt,
                           db_uri=uri, anti_fee_sniping=wc['afs'])
+    elif wc.get('default_net'):
+        # a wallet of another (default) network; the transactions are made from an account on `net` added afterwards
+        hk = HDKey.from_seed(seed, network=wc['default_net'], witness_type=wt)
+        w = Wallet.create('w', keys=hk, network=wc['default_net'], witness_type=wt, db_uri=uri,
+                          anti_fee_sniping=wc['afs'])
+        acc = w.new_account(network=net)
+        w._verif_nk = {'network': net, 'account_id': acc.account_id}
     else:
         hk = HDKey.from_seed(seed, network=net, witness_type=wt)
         w = Wallet.create('w', keys=hk, network=net, witness_type=wt, db_uri=uri, anti_fee_sniping=wc['afs'])
@@ -102,11 +109,14 @@ def _run_requests(ctx, case, w):
     # keys that receive funds
     single = wc['kind'] == 'single'
     recv = []
+    nk = getattr(w, '_verif_nk', {})
+    if nk:
+        ctx.klass('wallet.second_network_account')
     for k in range(4):
         if single:
             recv.append(w.get_key())
         else:
-            recv.append(w.new_key() if k else w.get_key())
+            recv.append(w.new_key(**nk) if k else w.get_key(**nk))
     # model of the unspent set
     model = {}
     txid = None
@@ -122,7 +132,14 @@ def _run_requests(ctx, case, w):
         else:
             txid = wu.fake_txid(case['rng'], n)
         last_conf = u['conf']
-        w.utxo_add(key.address, u['value'], txid, out_n, confirmations=u['conf'])
+        if nk:
+            # (utxo_add has no network argument; in a wallet with several networks the documented way to hand in an
+            # unspent output of one of them is utxos_update(utxos=..., networks=...))
+            w.utxos_update(utxos=[{'address': key.address, 'script': '', 'confirmations': u['conf'], 'output_n': out_n,
+                                   'txid': txid, 'value': u['value']}], networks=nk['network'],
+                           account_id=nk['account_id'], rescan_all=False)
+        else:
+            w.utxo_add(key.address, u['value'], txid, out_n, confirmations=u['conf'])
         model[(txid, out_n)] = {'value': u['value'], 'conf': u['conf'], 'address': key.address}
     consumed = {}      # outpoints spent by transactions this wallet broadcast -> txid
     for rq_i, rq in enumerate(case['requests']):
@@ -142,8 +159,9 @@ def _do_update(ctx, case, w, model, consumed):
     """utxos_update(): the wallet re-reads its unspent set from the (offline) provider. The model follows the
     wallet's listing, except that nothing a broadcast transaction consumed may come back."""
     try:
-        w.utxos_update()
-        listing = w.utxos(min_confirms=0)
+        nk = getattr(w, '_verif_nk', {})
+        w.utxos_update(**nk)
+        listing = w.utxos(min_confirms=0, **nk)
     except Exception as e:
         ctx.refusal('utxos_update.%s' % type(e).__name__)
         return
@@ -192,28 +210,30 @@ def _one_request(ctx, case, w, rq, model, recv, dust, netinfo, consumed=None):
     op = rq['op']
     fee = rq.get('fee')
     kwargs = {}
+    nk = getattr(w, '_verif_nk', {})
     try:
         if op == 'create':
             t = w.transaction_create(outputs, fee=fee, min_confirms=min_conf, max_utxos=rq.get('max_utxos'),
                                      number_of_change_outputs=rq.get('n_change', 1),
-                                     replace_by_fee=rq.get('rbf', False))
+                                     replace_by_fee=rq.get('rbf', False), **nk)
         elif op == 'send':
             t = w.send(outputs, fee=fee, min_confirms=min_conf, max_utxos=rq.get('max_utxos'),
                        number_of_change_outputs=rq.get('n_change', 1), replace_by_fee=rq.get('rbf', False),
-                       broadcast=broadcast)
+                       broadcast=broadcast, **nk)
         elif op == 'send_to':
             t = w.send_to(outputs[0][0], outputs[0][1], fee=fee, min_confirms=min_conf,
                           number_of_change_outputs=rq.get('n_change', 1), replace_by_fee=rq.get('rbf', False),
-                          broadcast=broadcast)
+                          broadcast=broadcast, **nk)
             wanted = wanted[:1]
         elif op == 'sweep':
             if rq.get('sweep_list') and len(outputs) >= 2:
                 to = [(a, v) for a, v in outputs[:-1]] + [(outputs[-1][0], 0)]
-                t = w.sweep(to, fee=fee, min_confirms=min_conf, max_utxos=rq.get('max_utxos') or 999, broadcast=broadcast)
+                t = w.sweep(to, fee=fee, min_confirms=min_conf, max_utxos=rq.get('max_utxos') or 999,
+                            broadcast=broadcast, **nk)
                 wanted = wanted[:-1] + [{'addr': outputs[-1][0], 'spk': wanted[-1]['spk'], 'amount': None}]
             else:
                 t = w.sweep(outputs[0][0], fee=fee, min_confirms=min_conf, max_utxos=rq.get('max_utxos') or 999,
-                            broadcast=broadcast)
+                            broadcast=broadcast, **nk)
                 wanted = [{'addr': outputs[0][0], 'spk': wanted[0]['spk'], 'amount': None}]
         else:
             raise AssertionError(op)
@@ -444,12 +464,24 @@ def _strategy(ctx):
             net = 'bitcoinlib_test'
         else:
             net = draw(st.sampled_from(NETS_EXPLICIT))
-        wts = ['legacy'] if net.startswith('dogecoin') else ['legacy', 'segwit', 'p2sh-segwit']
+        default_net = None
+        if kind == 'hd' and draw(st.integers(0, 2)) == 0:
+            # the wallet's own (default) network is another one - mostly one with other fee-rate limits - and the
+            # transactions are made from an account on `net` added afterwards
+            default_net, net = draw(st.sampled_from([
+                ('testnet', 'bitcoinlib_test'), ('testnet', 'bitcoinlib_test'), ('testnet', 'bitcoin'),
+                ('testnet', 'litecoin'), ('bitcoin', 'dogecoin'), ('bitcoinlib_test', 'dogecoin'),
+                ('dogecoin', 'bitcoin'), ('dogecoin', 'bitcoinlib_test'), ('bitcoin', 'bitcoinlib_test'),
+                ('litecoin', 'bitcoin')]))
+            testnet = net == 'bitcoinlib_test'
+        wts = ['legacy'] if 'dogecoin' in (net, default_net) else ['legacy', 'segwit', 'p2sh-segwit']
         wt = draw(st.sampled_from(wts))
         n = draw(st.sampled_from([2, 3])) if kind == 'ms' else 1
         m = 2 if kind == 'ms' else 1
         wallet = {'kind': kind, 'network': net, 'witness_type': wt, 'seed': draw(st.binary(min_size=16, max_size=16)).hex(),
                   'm': m, 'n': n, 'afs': testnet and draw(st.booleans())}
+        if default_net:
+            wallet['default_net'] = default_net
         dust = raddr.NETWORKS[net]['dust_amount']
         scale = 100000 if net.startswith('dogecoin') else 1
         value = st.one_of(st.sampled_from([dust - 1, dust, dust + 1, 5000 * scale, 5000 * scale, 100000 * scale,
@@ -471,9 +503,19 @@ def _strategy(ctx):
         fee_scale = 1000 if net.startswith('dogecoin') else 1
         if testnet:
             fee = st.one_of(st.none(), st.none(), st.sampled_from(['low', 'normal', 'high']),
-                            st.sampled_from([0, 500, 5000, 50000, 10 ** 7]))
+                            st.sampled_from([0, 500, 5000, 50000, 300000, 400000, 10 ** 7]))
         else:
             fee = st.sampled_from([0, 300, 1000, 5000, 20000, 10 ** 6, 10 ** 8]).map(lambda f: f * fee_scale)
+        if default_net:
+            # fees whose rate lies between the limits of the two networks (for transactions of 200..500 bytes)
+            lim_a, lim_b = raddr.NETWORKS[net], raddr.NETWORKS[default_net]
+            gap = []
+            if lim_b['fee_max'] > lim_a['fee_max']:
+                gap += [lim_a['fee_max'] * k // 1000 for k in (300, 400, 600, 900)]
+            if lim_b['fee_min'] < lim_a['fee_min']:
+                gap += [lim_a['fee_min'] * k // 1000 for k in (5, 20, 60, 120)]
+            if gap:
+                fee = st.one_of(fee, st.sampled_from(gap))
         rq = st.fixed_dictionaries({
             'op': st.sampled_from(['create', 'create', 'send', 'send_to', 'sweep']),
             'outputs': st.lists(out(), min_size=1, max_size=3),
